@@ -490,6 +490,23 @@ def setApiKey (flag : Str) (file : Option Str) (rnd : Str) : Str × Bool :=
     if k = [] then (rnd, true)                                              -- config.go:143-145
     else (k, false)                                                         -- config.go:147
 
+/-- **as found before the repair** (snapshot 8023026d, node.go:152 vs :170): `NewNodeWithInjections` opened the
+*initial* endpoint (`startInitialRPC`, namespace `bcn` with `syncing` only, replaced by the full one in
+`StartWithHeight`) with `config.RPC.APIKey` as it was on entry, i.e. before `SetApiKey` had looked at `api.key`
+or generated a key.  Kept for the witness theorem `initial_endpoint_ungated_as_found` (finding F34). -/
+def initialEndpointKeyAsFound (flag : Str) (_file : Option Str) : Str := flag
+
+/-- **repaired ordering** (node.go:152-165): `KeyStoreDataDir` and `SetApiKey` run first, then `startInitialRPC`:
+the initial endpoint is created with the resolved key, the same one the full endpoint gets. -/
+def initialEndpointKey (flag : Str) (file : Option Str) (rnd : Str) : Str := (setApiKey flag file rnd).1
+
+/-- (G) constructor facts: every function that builds a `Node` value calls `SetApiKey` before, the full RPC
+endpoint (`startRPC`/`startHTTP`) is only opened from methods of a constructed `Node`, and the constructor
+opens the initial endpoint after the key resolution (`initialOrder = "after"`). -/
+def ctorOk (ctors : List (String × String)) (starts : List String) (initialOrder : String) : Bool :=
+  !ctors.isEmpty && ctors.all (fun c => c.2 == "yes") && !starts.isEmpty && starts.all (fun s => s == "recv") &&
+  initialOrder == "after"
+
 /-- (G) key flow: `newserver` facts `(enclosing function, argument kind, number of call sites of that function)`
 for every non-test call of `rpc.NewServer`, and the `keypass` classes of the arguments on the way from the
 config field to it.  A server is created either with a value that is traced back to `….RPC.APIKey`, or
